@@ -401,22 +401,29 @@ Proof.
   rewrite H1, H2, H3, H4, H5, H6 in H. lra.
 Qed.
 
+(* positions of a picked face = picked positions (indices in range) *)
+Lemma face_pts_pick : forall (pos : Z -> RV3) c idx,
+  (forall k, In k idx -> (k < length c)%nat) ->
+  face_pts pos (pick c idx) = pick_pts (map pos c) idx.
+Proof.
+  intros pos c idx H. unfold face_pts, pick, pick_pts. rewrite map_map.
+  apply map_ext_in. intros k Hk.
+  rewrite (nth_indep (map pos c) (0, 0, 0) (pos 0%Z)) by (rewrite map_length; apply H; exact Hk).
+  symmetry. apply map_nth.
+Qed.
+
 (* every tetrahedron of positive volume satisfies the convex-cell predicate *)
 Lemma tet_cell_outward : forall (pos : Z -> RV3) i c0 c1 c2 c3,
   0 < tet_like ROps (pos c0) (pos c1) (pos c2) (pos c3) ->
   cell_outward pos (Tet, i, [c0; c1; c2; c3]).
 Proof.
   intros pos i c0 c1 c2 c3 Hvol h Hh.
-  unfold elem_faces, faces_of in Hh. simpl in Hh.
-  unfold odotR, cellpts, conn_of. simpl snd.
-  assert (Hidx : exists idx, In idx (table Tet) /\
-                 face_pts pos h = pick_pts (map pos [c0; c1; c2; c3]) idx).
-  { cbv [table concat tbl_tet app].
-    destruct Hh as [<- | [<- | [<- | [<- | []]]]];
-      [exists [0; 2; 1]%nat | exists [0; 1; 3]%nat | exists [1; 2; 3]%nat | exists [0; 3; 2]%nat];
-      (split; [simpl; tauto | reflexivity]). }
-  destruct Hidx as [idx [Hin Hpts]]. rewrite Hpts. simpl map.
-  rewrite (tet_outward (pos c0) (pos c1) (pos c2) (pos c3) idx Hin). lra.
+  unfold elem_faces, faces_of in Hh. cbn [length arity Nat.eqb used_cols firstn] in Hh.
+  apply in_map_iff in Hh. destruct Hh as [idx [<- Hin]].
+  unfold odotR, cellpts. cbn [snd].
+  rewrite face_pts_pick.
+  - cbn [map]. rewrite (tet_outward (pos c0) (pos c1) (pos c2) (pos c3) idx Hin). lra.
+  - intros k Hk. apply (table_idx_lt Tet idx k Hin Hk).
 Qed.
 
 (* ... and so does every affine image with positive determinant of a reference
